@@ -221,3 +221,291 @@ def memo_key_cover(check: Check, repo: Repo) -> None:
         check.ob(rule, st, f"{q}: key covers {sorted(used)}", not missing,
                  f"key `{unparse(key)}` mentions {sorted(key_names & set(params))}" if not missing else
                  f"input(s) {sorted(missing)} of the memoised computation are not part of the key `{unparse(key)}`")
+
+
+# -- C06 R2 HOOK-ONCE --------------------------------------------------------------------------
+
+HOOK = "run_async_work_finished_hook"
+
+
+class HookCounter:
+    """Path-count analysis {0,1,>=2} of hook discharges on the typed CFG of a function.
+
+    Exceptional edges come from explicit raises and from calls whose may-raise summary (explicit
+    raises, transitively, minus local handlers) is non-empty; an `await` of an unresolved value may
+    raise Exception.  BaseException-only exits (task cancellation by the caller) are outside C06's
+    stop kinds and not modelled.
+    """
+
+    def __init__(self, repo: Repo) -> None:
+        self.repo = repo
+        self.classes = ClassIndex(repo)
+        self.cg = CallGraph(repo, self.classes)
+        self.mr = MayRaise(repo, self.classes, self.cg)
+        self._normal: dict[ast.AST, set[int]] = {}
+        self._active: set[ast.AST] = set()
+        self.witness: dict[ast.AST, str] = {}
+
+    # resolution of a call to its target functions (self.m, super().m, local constructor receivers, nested defs)
+    def targets(self, call: ast.Call, fn: ast.AST) -> list[ast.AST]:
+        out = [t for c, t in self.cg.callees(_outermost(fn)) if c is call]
+        if out:
+            return out
+        f = call.func
+        if isinstance(f, ast.Name):
+            for n in ast.walk(_outermost(fn)):
+                if isinstance(n, FuncDef) and n.name == f.id and n is not fn:
+                    return [n]
+        if isinstance(f, ast.Attribute):
+            recv = f.value
+            # super().m(...)
+            if isinstance(recv, ast.Call) and isinstance(recv.func, ast.Name) and recv.func.id == "super":
+                cls = _class_of(fn)
+                ci = self.classes.by_node.get(cls) if cls is not None else None
+                if ci is not None:
+                    for b in self.classes.mro(ci)[1:]:
+                        if f.attr in b.methods():
+                            return [b.methods()[f.attr]]
+            # x = ClassName(); x.m(...)
+            if isinstance(recv, ast.Name):
+                for n in walk_body(_outermost(fn)):
+                    if isinstance(n, ast.Assign) and len(n.targets) == 1 and isinstance(n.targets[0], ast.Name) \
+                            and n.targets[0].id == recv.id and isinstance(n.value, ast.Call) and isinstance(n.value.func, ast.Name):
+                        ci = self.classes.resolve_class_expr(module_of(fn), n.value.func)
+                        if ci is not None:
+                            m = self.classes.find_method(ci, f.attr)
+                            if m:
+                                return [m[1]]
+        return []
+
+    def call_weight(self, call: ast.Call, fn: ast.AST) -> int:
+        if last_attr(call) == HOOK:
+            return 1
+        w = 0
+        for t in self.targets(call, fn):
+            n = self.normal_counts(t)
+            if n == {1}:
+                w = max(w, 1)
+            elif n and max(n) >= 2:
+                w = 2
+        return w
+
+    def normal_counts(self, fn: ast.AST) -> set[int]:
+        """Counts of hook discharges on the normal exits of fn (for generators / coroutines: of the
+        body once it runs - the discharge is deferred to the object returned by the call)."""
+        if fn in self._normal:
+            return self._normal[fn]
+        if fn in self._active:
+            return {0}
+        self._active.add(fn)
+        res = self.analyse(fn)
+        self._active.discard(fn)
+        self._normal[fn] = res["exit"]
+        return res["exit"]
+
+    def oracle(self, fn: ast.AST):
+        own_calls = None
+
+        def classes_of(node: ast.AST) -> list[tuple[str, ast.AST]]:
+            out: list[tuple[str, ast.AST]] = []
+            if isinstance(node, ast.Raise):
+                cls = self.mr.raise_class(node, fn)
+                return [("Exception" if cls == "Any" else cls, node)]
+            roots = [node]
+            if isinstance(node, (ast.For, ast.AsyncFor)):
+                roots = [node.iter]
+            elif isinstance(node, (ast.With, ast.AsyncWith)):
+                roots = [i.context_expr for i in node.items]
+            elif isinstance(node, (ast.FunctionDef, ast.AsyncFunctionDef, ast.ClassDef, ast.ExceptHandler, ast.Try, ast.While, ast.match_case)):
+                return []
+            stack = list(roots)
+            while stack:
+                n = stack.pop()
+                if isinstance(n, (ast.FunctionDef, ast.AsyncFunctionDef, ast.Lambda, ast.ClassDef)):
+                    continue
+                stack.extend(ast.iter_child_nodes(n))
+                if isinstance(n, ast.Call):
+                    awaited = isinstance(parent(n), ast.Await)
+                    for t in self.targets(n, fn):
+                        if isinstance(t, ast.AsyncFunctionDef) and not awaited:
+                            continue
+                        for cls in self.mr.summary(t):
+                            out.append(("Exception" if cls == "Any" else cls, n))
+                elif isinstance(n, ast.Await):
+                    v = n.value
+                    if not (isinstance(v, ast.Call) and self.targets(v, fn)):
+                        out.append(("Exception", n))
+                elif isinstance(n, (ast.Yield, ast.YieldFrom)):
+                    out.append(("GeneratorExit", n))
+                    out.append(("Exception", n))
+            # de-duplicate
+            seen, uniq = set(), []
+            for cls, o in out:
+                if (cls, id(o)) not in seen:
+                    seen.add((cls, id(o)))
+                    uniq.append((cls, o))
+            return uniq
+
+        return classes_of
+
+    def analyse(self, fn: ast.AST) -> dict[str, set[int]]:
+        cfg = CFG(fn, raise_oracle=self.oracle(fn), catches=self.mr.hier.catches)
+        self._cfg = cfg
+        counts: dict = {n: set() for n in cfg.nodes}
+        origin_of: dict = {}
+        counts[cfg.entry] = {0}
+        work = [cfg.entry]
+
+        def node_calls(n) -> list[ast.Call]:
+            a = n.ast
+            if a is None or n.kind in ("join", "finally", "handler", "def", "case"):
+                return []
+            roots = [a]
+            if isinstance(a, (ast.For, ast.AsyncFor)):
+                roots = [a.iter]
+            elif isinstance(a, (ast.With, ast.AsyncWith)):
+                roots = [i.context_expr for i in a.items]
+            elif isinstance(a, ast.Match):
+                roots = [a.subject]
+            out = []
+            stack = list(roots)
+            while stack:
+                x = stack.pop()
+                if isinstance(x, (ast.FunctionDef, ast.AsyncFunctionDef, ast.Lambda, ast.ClassDef)):
+                    continue
+                stack.extend(ast.iter_child_nodes(x))
+                if isinstance(x, ast.Call):
+                    out.append(x)
+            return out
+
+        weights: dict = {}
+        for n in cfg.nodes:
+            weights[n] = [(c, self.call_weight(c, fn)) for c in node_calls(n)]
+            weights[n] = [(c, w) for c, w in weights[n] if w]
+
+        def before(n, origin) -> int:
+            """weight discharged in node n before `origin` raised."""
+            tot = 0
+            for c, w in weights[n]:
+                if origin is None:
+                    tot += w
+                elif c is origin:
+                    continue
+                elif isinstance(origin, ast.Raise):
+                    tot += w
+                elif _is_descendant(c, origin) or (c.end_lineno, c.end_col_offset) <= (origin.lineno, origin.col_offset):
+                    tot += w
+            return tot
+
+        while work:
+            n = work.pop()
+            base = counts[n]
+            full = sum(w for _, w in weights[n])
+            for m, label in cfg.succ.get(n, []):
+                if label and label[0] in ("exc", "excprop") and n.flavor and n.kind != "raise":
+                    continue  # a failure of the cleanup sequence itself is not modelled
+                if label and label[0] in ("exc", "excprop"):
+                    origin = label[3] if len(label) > 3 else None
+                    cls = label[2] if len(label) > 2 else "Exception"
+                    add = before(n, origin)
+                else:
+                    add = full
+                new = {min(2, b + add) for b in base}
+                if not new <= counts[m]:
+                    for v in new - counts[m]:
+                        origin_of.setdefault((m, v), (n, label))
+                    counts[m] |= new
+                    work.append(m)
+        self._last = (cfg, counts, origin_of)
+        return {"exit": counts[cfg.exit], "rexit": counts[cfg.rexit]}
+
+    def explain(self, which: str, count: int) -> str:
+        cfg, counts, origin_of = self._last
+        node = cfg.exit if which == "exit" else cfg.rexit
+        steps = []
+        cur, c = node, count
+        seen = set()
+        while (cur, c) in origin_of and (cur, c) not in seen and len(steps) < 12:
+            seen.add((cur, c))
+            prev, label = origin_of[(cur, c)]
+            line = getattr(prev.ast, "lineno", None)
+            if label and label[0] in ("exc", "excprop"):
+                steps.append(f"line {line}: {label[2]} raised, not caught" if label[0] == "excprop" else f"line {line}: {label[2]} -> handler")
+            elif line and prev.kind in ("return", "raise"):
+                steps.append(f"line {line}: {prev.kind}")
+            # find previous count
+            pc = None
+            for b in counts[prev]:
+                pc = b if pc is None else min(pc, b)
+            cur, c = prev, (pc if pc is not None else 0)
+        return " <- ".join(steps[:6]) or "fall-through"
+
+
+def _is_descendant(a: ast.AST, b: ast.AST) -> bool:
+    return any(x is a for x in ast.walk(b)) and a is not b
+
+
+def _outermost(fn: ast.AST) -> ast.AST:
+    cur = fn
+    while True:
+        p = enclosing_function(cur)
+        if p is None:
+            return cur
+        cur = p
+
+
+def _class_of(fn: ast.AST) -> ast.ClassDef | None:
+    p = parent(_outermost(fn))
+    return p if isinstance(p, ast.ClassDef) else None
+
+
+def hook_once(check: Check, repo: Repo) -> None:
+    rule = "HOOK-ONCE"
+    check.rule(
+        rule,
+        "from the operation entry points every path to an exit - normal return, exception leaving the "
+        "function (explicit raises resolved through the call graph; awaits of unresolved values may raise "
+        "Exception), generator closed at a yield - discharges the async_work_finished hook exactly once "
+        "(directly, through a callee all of whose paths do, or by handing out a coroutine/generator whose "
+        "body does); a discharge that lives only in the body of a *generator* is not reached when the "
+        "generator is closed before its first step",
+    )
+    hc = HookCounter(repo)
+    op = repo.func("execution.executor", "Executor.execute_operation")
+    targets = [
+        ("Executor.execute_operation", op, True),
+        ("Executor.execute_operation.await_result", nested(op, "await_result"), True),
+        ("Executor.build_response", repo.func("execution.executor", "Executor.build_response"), False),
+        ("IncrementalExecutor.build_response",
+         repo.func("execution.incremental.incremental_executor", "IncrementalExecutor.build_response"), False),
+        ("IncrementalPublisher.build_response",
+         repo.func("execution.incremental.incremental_publisher", "IncrementalPublisher.build_response"), False),
+        ("IncrementalPublisher._subscribe",
+         repo.func("execution.incremental.incremental_publisher", "IncrementalPublisher._subscribe"), True),
+    ]
+    for label, fn, with_exc in targets:
+        res = hc.analyse(fn)
+        for which in ("exit", "rexit"):
+            if which == "rexit" and not with_exc:
+                continue
+            cs = res[which]
+            if not cs:
+                continue
+            ok = cs == {1}
+            what = "normal exits" if which == "exit" else "exceptional exits"
+            detail = "hook discharged exactly once on every path"
+            if not ok:
+                bad = min(cs - {1}) if cs - {1} else 1
+                detail = f"a path reaches the {what} with the hook discharged {bad if bad < 2 else '>= 2'} times: {hc.explain(which, bad)}"
+            check.ob(rule, fn, f"{label}: {what}", ok, detail)
+    # deferred discharge inside a generator body
+    for label, fn, _ in targets:
+        for c in walk_body(fn):
+            if isinstance(c, ast.Call):
+                for t in hc.targets(c, fn):
+                    if isinstance(t, ast.AsyncFunctionDef) and any(isinstance(y, (ast.Yield, ast.YieldFrom)) for y in walk_body(t)) \
+                            and hc.normal_counts(t) == {1} and not isinstance(parent(c), ast.Await):
+                        check.ob(rule, c, f"{label}: discharge deferred to generator {t.name}", False,
+                                 f"the hook (and the cleanup next to it) runs only in the `finally` of the async generator "
+                                 f"{t.name}; closing the returned generator before its first step runs no `finally`")
+    check.floor(rule, 8, "exit classes of the operation entry points")
